@@ -394,6 +394,38 @@ def lenStr : PV → PV
   | err e => err e
   | _ => err "TypeError"
 
+/-- `str(n)` of an int -/
+def strOf : PV → PV
+  | int i => str (toString i)
+  | err e => err e
+  | _ => err "TypeError"
+
+/-- `s.zfill(z)` for a string without sign -/
+def zfill (a z : PV) : PV :=
+  match a, z with
+  | err e, _ => err e
+  | _, err e => err e
+  | str s, int z => str (String.ofList (List.replicate (z.toNat - s.length) '0') ++ s)
+  | _, _ => err "TypeError"
+
+/-- `a[i]` for an integer index into a list of ints -/
+def getAt (a i : PV) : PV :=
+  match a, i with
+  | err e, _ => err e
+  | _, err e => err e
+  | arr _ xs, int i =>
+    let j := if i < 0 then i + xs.length else i
+    if 0 ≤ j then (match xs[j.toNat]? with | some v => int v | none => err "IndexError") else err "IndexError"
+  | _, _ => err "TypeError"
+
+/-- `for i, x in enumerate(xs): body` with the carried variables `(scalars, list)` -/
+def forEnum (xs : PV) (init : List PV × List PV) (body : PV → PV → List PV × List PV → List PV × List PV) :
+    List PV × List PV :=
+  match xs with
+  | arr _ l => l.zipIdx.foldl (fun st p => body (int p.2) (int p.1) st) init
+  | err e => ([err e], [err e])
+  | _ => ([err "TypeError"], [err "TypeError"])
+
 /-- `list(x)` of a list of ints -/
 def toList : PV → PV
   | arr _ xs => arr .big xs
